@@ -350,6 +350,46 @@ def copyout(ctx, R, py, modules):
     return n
 
 
+UNUSED_OK = {("rdgraphspace.rdgraphspace_from_dict", "base_path"): "graph spaces reference no files: accepted for a uniform reader signature",
+             ("rdnetwork.rdnetwork_from_dict", "base_path"): "networks reference no files: accepted for a uniform reader signature",
+             ("value_processing.format_unitvar_for_save", "units_system"): "kept for a uniform signature; the value is printed with its own units"}
+
+
+def unused(ctx, R, py, modules, cx=None):
+    """PARAMS -- every parameter is used by its function (three named exceptions keep a uniform signature).  A parameter that is
+    accepted and then ignored is the shape of `position ignored`, `units_system ignored`, `policy ignored`: the caller's value
+    silently has no effect."""
+    n = 0
+    for mn in modules:
+        m = py.mods.get(mn)
+        ctx.need(m is not None, R, "module %s not found" % mn)
+        for f in m.funcs.values():
+            ps = [p for p in pyfe.params(f) if p not in ("self", "cls")]
+            if not ps:
+                continue
+            body = [st for st in f.body if not (isinstance(st, ast.Expr) and isinstance(st.value, ast.Constant))]
+            if all(isinstance(st, (ast.Pass, ast.Raise)) or (isinstance(st, ast.Return) and (
+                    st.value is None or isinstance(st.value, ast.Constant))) for st in body):
+                continue        # abstract / stub
+            used = {x.id for x in ast.walk(f) if isinstance(x, ast.Name) and isinstance(x.ctx, (ast.Load, ast.Del))}
+            used |= {x.id for x in ast.walk(f) if isinstance(x, ast.Name) and isinstance(x.ctx, ast.Store) and False}
+            n += 1
+            dead = [p for p in ps if p not in used and (f._qual, p) not in UNUSED_OK]
+            ctx.check(not dead, R, f, f._qual, "parameters %s" % ps[:6], "all used", "parameter `%s` is never read: whatever the caller "
+                      "passes for it has no effect" % (dead[0] if dead else ""), nontrivial=False)
+    if cx is not None:
+        from .cxfe import walk as cwalk
+        for f in cx.all_fns():
+            if f.body is None or not f.params:
+                continue
+            used = {x.get("referencedDecl", {}).get("id") for x in cwalk(f.body) if x.get("kind") == "DeclRefExpr"}
+            dead = [p.get("name") for p in f.params if p.get("name") and p.get("id") not in used]
+            n += 1
+            ctx.check(not dead, R, f.node, f.qual, "parameters %s" % f.param_names()[:6], "all used", "parameter `%s` is never read: the "
+                      "value handed over by the caller has no effect" % (dead[0] if dead else ""), nontrivial=False)
+    return n
+
+
 def run(ctx, pid, py, modules, truth_floor=1):
     from . import truth
     truth.rule(ctx, pid + ".TRUTH", py, modules, floor=truth_floor)
@@ -360,6 +400,7 @@ def run(ctx, pid, py, modules, truth_floor=1):
     query(ctx, pid + ".QUERY", py, modules)
     memo(ctx, pid + ".MEMO", py, modules)
     copyout(ctx, pid + ".COPYOUT", py, modules)
+    unused(ctx, pid + ".PARAMS", py, modules, ctx.cx if pid in CX_PROPS else None)
     from . import argorder
     argorder.rule(ctx, pid + ".ARGS", py_modules=modules, cx=pid in CX_PROPS)
     nn = names(ctx, pid + ".NAMES", py, modules)
